@@ -36,6 +36,10 @@ pub fn run(cases_path: &str, report_path: &str, _opts: &[String]) {
         rep.cases += 1;
         rep.execs += 1;
         let bytes: Vec<u8> = case["bytes"].as_array().unwrap().iter().map(|b| b.as_u64().unwrap() as u8).collect();
+        if case["strlit"] == true {
+            strlit_case(&mut rep, ci, case, &bytes);
+            continue;
+        }
         let ideal: Vec<(usize, usize)> = case["ideal"].as_array().unwrap().iter().map(|t| (t[0].as_u64().unwrap() as usize, t[1].as_u64().unwrap() as usize)).collect();
         let mech: Vec<(usize, usize)> = case["mech"].as_array().unwrap().iter().map(|t| (t[0].as_u64().unwrap() as usize, t[1].as_u64().unwrap() as usize)).collect();
         if ideal.len() >= 2 { rep.nontrivial += 1; }
@@ -53,4 +57,36 @@ pub fn run(cases_path: &str, report_path: &str, _opts: &[String]) {
         if ci > 5000 && rep.samples.len() < 2 { rep.sample(json!({"case": case})); }
     }
     rep.write(report_path);
+}
+
+/// spec/StrLit.tla: `bytes` is what follows the opening parenthesis; the spec's Ref gives the value and the end
+fn strlit_case(rep: &mut Report, ci: usize, case: &Value, bytes: &[u8]) {
+    use pdf::object::NoResolve;
+    use pdf::parser::{parse_with_lexer, Lexer, ParseFlags};
+    use pdf::primitive::Primitive;
+    let text = [b"(".as_slice(), bytes].concat();
+    let ideal = &case["ideal"];
+    let ok = ideal["k"] == "ok";
+    if ok && bytes.len() >= 3 { rep.nontrivial += 1; }
+    let which = || -> &'static str {
+        if bytes.windows(2).any(|w| w[0] == 92 && (48..=55).contains(&w[1])) { "octal" }
+        else if bytes.windows(2).any(|w| w[0] == 92 && (w[1] == 13 || w[1] == 10)) { "continuation" }
+        else if bytes.contains(&13) { "raw-cr" }
+        else if bytes.contains(&92) { "escape" } else { "plain" }
+    };
+    let out = crate::observe::guarded(|| { let mut lx = Lexer::new(&text); let r = parse_with_lexer(&mut lx, &NoResolve, ParseFlags::ANY); (r, lx.get_pos()) });
+    match out {
+        crate::observe::Outcome::Panic(p) => rep.fail(&format!("strlit:panic:{}", p.sym), json!({"case_index": ci, "case": case, "observed": crate::observe::panic_json(&p)})),
+        crate::observe::Outcome::Done((Ok(Primitive::String(s)), pos)) => {
+            let want: Vec<u8> = ideal["val"].as_array().map(|a| a.iter().map(|b| b.as_u64().unwrap() as u8).collect()).unwrap_or_default();
+            let want_end = ideal["end"].as_u64().unwrap_or(0) as usize; // 1-based position after `)` within bytes = 0-based position in text
+            if !ok { rep.fail(&format!("strlit:accepted-unterminated:{}", which()), json!({"case_index": ci, "case": case, "text": String::from_utf8_lossy(&text), "observed": s.as_bytes()})); }
+            else if s.as_bytes() != &want[..] { rep.fail(&format!("strlit:value:{}", which()), json!({"case_index": ci, "case": case, "text": String::from_utf8_lossy(&text), "expected": want, "observed": s.as_bytes()})); }
+            else if pos != want_end { rep.fail(&format!("strlit:consumed:{}", which()), json!({"case_index": ci, "case": case, "text": String::from_utf8_lossy(&text), "expected": want_end, "observed": pos})); }
+        }
+        crate::observe::Outcome::Done((Ok(p), _)) => rep.fail("strlit:not-a-string", json!({"case_index": ci, "case": case, "observed": format!("{:?}", p)})),
+        crate::observe::Outcome::Done((Err(e), _)) => {
+            if ok { rep.fail(&format!("strlit:rejected:{}", which()), json!({"case_index": ci, "case": case, "text": String::from_utf8_lossy(&text), "observed": crate::observe::err_json(&e)})); }
+        }
+    }
 }
